@@ -20,8 +20,12 @@ fn gen_cfg_batch(rng: &mut Rng, l1: bool) -> DispCfg {
     // prefer windows wider than 2x the row capacity
     let (fw, fh) = cfg.model.fb();
     if fw as u32 >= 128 && rng.chance(3, 4) {
-        let w = rng.range(101, (fw as i64).min(160)) as u16;
-        let h = rng.range(1, (fh as i64).min(24)) as u16;
+        // at the Interface level windows may be several hundred pixels wide, so that runs and
+        // blocks also occur at columns >= 256
+        let wmax = if l1 { 700 } else { 160 };
+        let hmax = if l1 { 120 } else { 24 };
+        let w = rng.range(101, (fw as i64).min(wmax)) as u16;
+        let h = rng.range(1, (fh as i64).min(hmax)) as u16;
         cfg.w = w;
         cfg.h = h;
         cfg.ox = rng.range(0, (fw - w) as i64) as u16;
@@ -81,8 +85,8 @@ fn classify_boundaries(a: &mut Acc, px: &[(i32, i32, u32)], bs: &[((u16, u16, u1
     }
     let mut pos = 0usize;
     for (win, n) in bs {
-        let rows = win.3 - win.2 + 1;
-        let cols = win.1 - win.0 + 1;
+        let rows = win.3.wrapping_sub(win.2).wrapping_add(1);
+        let cols = win.1.wrapping_sub(win.0).wrapping_add(1);
         a.count(
             if *n == 1 {
                 "burst_shape[single-pixel]"
@@ -202,7 +206,7 @@ pub fn c03(args: &Args) -> Acc {
             let bs = bursts(&ra.log);
             a.count("bursts", bs.len() as u64);
             a.count("stream_pixels", px.len() as u64);
-            if cfg!(feature = "batch") {
+            if cfg!(feature = "batch") && !bad {
                 classify_boundaries(a, &px, &bs);
             }
             a.case_hash(case_hash(&cfg, &prog), !px.is_empty() && !bad);
@@ -243,16 +247,35 @@ pub fn c20(args: &Args) -> Acc {
         let n = args.n(30_000, 500_000);
         let acc = par_cases(n, args.threads, args.case, |idx, a| {
             let mut rng = Rng::for_case(args.seed, "C20/fills", &args.tier, idx);
-            let cfg = gen::gen_cfg(&mut rng, &CfgOpts { external: true, l1: true, l2: true, max_l2_area: 1024 });
-            let (lw, lh) = lsize(&cfg);
+            let mut cfg = gen::gen_cfg(&mut rng, &CfgOpts { external: true, l1: true, l2: true, max_l2_area: 1024 });
             let mut tags = TagGen::new(&mut rng);
-            let maxvis = if cfg.tr.is_l2() { 1024 } else { 1 << 16 };
-            let r = gen::gen_rect(&mut rng, lw, lh, Mode::Hostile, maxvis);
+            // at the Interface level fills of several hundred thousand pixels are one event
+            let maxvis = if cfg.tr.is_l2() { 1024 } else { 1 << 22 };
+            if !cfg.tr.is_l2() && rng.chance(1, 3) {
+                // full-size panels: fills above 2^16 pixels
+                let (fw, fh) = cfg.model.fb();
+                cfg.w = fw;
+                cfg.h = fh;
+                cfg.ox = 0;
+                cfg.oy = 0;
+            }
+            let (lw, lh) = lsize(&cfg);
+            let r = if rng.chance(1, 4) {
+                // most of the display, so that big panels see fills above 2^16 pixels
+                let x = rng.range(-3, 3) as i32;
+                let y = rng.range(-3, 3) as i32;
+                Rect { x, y, w: (lw - rng.range(0, 12)).max(1) as u32, h: (lh - rng.range(0, 12)).max(1) as u32 }
+            } else {
+                gen::gen_rect(&mut rng, lw, lh, Mode::Hostile, maxvis)
+            };
+            if lsize(&cfg).0 * lsize(&cfg).1 > (1 << 24) && r.area() > (1 << 24) {
+                return; // keep the reference affordable on the 65535^2 models
+            }
             let op = match rng.below(3) {
                 0 => Op::FillSolid { rect: r, c: tags.one() },
                 1 => {
-                    let bound = gen::last_visible_index(&r, lw, lh).unwrap_or(0);
-                    if bound > 1 << 20 {
+                    let vis = visible_area(&r, lw, lh);
+                    if vis > 1 << 18 {
                         Op::FillSolid { rect: r, c: tags.one() }
                     } else {
                         Op::FillContiguous { rect: r, colors: Stream::Seq { start: tags.run(r.area()), step: 1, len: None } }
@@ -378,7 +401,7 @@ pub fn c20(args: &Args) -> Acc {
         let n = args.n(30_000, 500_000);
         let acc = par_cases(n, args.threads, args.case, |idx, a| {
             let mut rng = Rng::for_case(args.seed, "C20/spi", &args.tier, idx);
-            let model = *rng.pick(&[ModelId::Ext256x256, ModelId::Ext240x320c666, ModelId::ILI9341Rgb565, ModelId::ILI9341Rgb666, ModelId::ST7789]);
+            let model = *rng.pick(&[ModelId::Ext256x256, ModelId::Ext240x320c666, ModelId::ILI9341Rgb565, ModelId::ILI9341Rgb666, ModelId::ST7789, ModelId::ILI9488Rgb565, ModelId::ST7796]);
             let mut cfg = DispCfg::full(model, Tr::Spi);
             cfg.spi_buf = gen::spi_buf_len(&mut rng, model.bits());
             cfg.ori = Ori(rng.below(8) as u8);
@@ -387,7 +410,9 @@ pub fn c20(args: &Args) -> Acc {
             let usable = (cfg.spi_buf as u64 / bpp) * bpp;
             let cap = usable / bpp;
             let counts = [1, 2, cap.saturating_sub(1).max(1), cap, cap + 1, 2 * cap, 2 * cap + 1, 3 * cap, 777];
-            let want_px = (*rng.pick(&counts)).clamp(1, (lw * lh) as u64).min(20_000);
+            let big = cfg.spi_buf > 4096;
+            // with a large transfer buffer: fills above 2^16 pixels too
+            let want_px = if big && rng.bool() { (lw * lh) as u64 - rng.below(3) * lw as u64 } else { (*rng.pick(&counts)).clamp(1, (lw * lh) as u64).min(20_000) };
             // a rectangle of exactly/about want_px pixels
             let w = (want_px.min(lw as u64)).max(1);
             let h = ((want_px + w - 1) / w).clamp(1, lh as u64);
@@ -478,18 +503,32 @@ pub fn c04(args: &Args) -> Acc {
     let n = args.n(60_000, 2_000_000);
     let acc = par_cases(n, args.threads, args.case, |idx, a| {
         let mut rng = Rng::for_case(args.seed, "C04", &args.tier, idx);
-        let cfg = gen::gen_cfg(&mut rng, &CfgOpts { external: true, l1: true, l2: true, max_l2_area: 1024 });
+        let mut cfg = gen::gen_cfg(&mut rng, &CfgOpts { external: true, l1: true, l2: true, max_l2_area: 1024 });
+        // at the Interface level, now and then a full-size panel with more than 2^16 visible points
+        let large = !cfg.tr.is_l2() && !crate::small() && rng.chance(1, 12);
+        if large {
+            let (fw, fh) = cfg.model.fb();
+            cfg.w = fw.min(700);
+            cfg.h = fh.min(700);
+            cfg.ox = 0;
+            cfg.oy = 0;
+        }
         let (lw, lh) = lsize(&cfg);
-        let maxvis = if cfg.tr.is_l2() { 1024 } else { 8192 };
+        let maxvis = if cfg.tr.is_l2() { 1024 } else if large { 1 << 19 } else { 8192 };
         let mut rect;
         let mut lvi;
         loop {
             rect = gen::gen_rect(&mut rng, lw, lh, Mode::Hostile, maxvis);
+            if large && rng.bool() {
+                // overlapping one or two edges and covering most of the display
+                rect = Rect { x: rng.range(-5, 2) as i32, y: rng.range(-5, 2) as i32, w: (lw + rng.range(-3, 6)).max(1) as u32, h: (lh + rng.range(-3, 6)).max(1) as u32 };
+            }
             lvi = gen::last_visible_index(&rect, lw, lh);
             if lvi.is_none() && rng.chance(4, 5) {
                 continue; // keep some invisible rectangles, but not half of all cases
             }
-            if lvi.unwrap_or(0) <= if crate::small() { 300 } else { 1 << 21 } {
+            // O(1) stream skipping: only the visible part costs time
+            if !crate::small() || lvi.unwrap_or(0) <= 300 {
                 break;
             }
         }
@@ -506,13 +545,13 @@ pub fn c04(args: &Args) -> Acc {
             Some(area),
             Some(area + 7),
             None,
-            Some(rng.range(0, area.min(1 << 21) as i64) as u64),
+            Some(rng.range(0, area.min(1 << 40) as i64) as u64),
         ];
         let mut len = *rng.pick(&lens);
         // a finite stream longer than needed costs a correct driver nothing, but the
         // reference and the driver only ever look at indices <= last visible
         if let Some(l) = len {
-            if l > (1 << 22) {
+            if l > (1 << 33) {
                 len = None;
             }
         }
@@ -524,7 +563,8 @@ pub fn c04(args: &Args) -> Acc {
         }
         let mut tags = TagGen::new(&mut rng);
         let start = tags.one();
-        let op = Op::FillContiguous { rect, colors: Stream::Seq { start, step: 1, len } };
+        let colors = if rng.chance(1, 2) { Stream::Hash { seed: start, len } } else { Stream::Seq { start, step: 1, len } };
+        let op = Op::FillContiguous { rect, colors };
         let prog = vec![op.clone()];
         a.seen("clip_classes", gen::clip_class(&rect, lw, lh));
         a.seen(
@@ -601,4 +641,16 @@ fn first_visible_index(r: &Rect, lw: i64, lh: i64) -> Option<u64> {
         return None;
     }
     Some((y0 - r.y as i64) as u64 * r.w as u64 + (x0 - r.x as i64) as u64)
+}
+
+fn visible_area(r: &Rect, lw: i64, lh: i64) -> u64 {
+    let x0 = (r.x as i64).max(0);
+    let y0 = (r.y as i64).max(0);
+    let x1 = (r.x as i64 + r.w as i64 - 1).min(lw - 1);
+    let y1 = (r.y as i64 + r.h as i64 - 1).min(lh - 1);
+    if r.w == 0 || r.h == 0 || x0 > x1 || y0 > y1 {
+        0
+    } else {
+        ((x1 - x0 + 1) * (y1 - y0 + 1)) as u64
+    }
 }
